@@ -17,6 +17,7 @@ import (
 type VerifHooks struct {
 	RaftApply func(t structs.MessageType, buf []byte) (any, error)
 	RPC       func(ctx context.Context, method string, args, reply interface{}) error
+	IsLeader  func() bool
 }
 
 var verifHooks sync.Map // *Server -> *VerifHooks
